@@ -242,21 +242,46 @@ class Runner:
         self.c, self.binary = c, binary
 
     def run(self, hs, want_spec=False):
-        """-> list of dicts {impl, caps, fresh, model, mcaps, spec}"""
+        """-> list of dicts {impl, caps, fresh, model, mcaps, spec, spec_only}.
+        The concrete model costs O(len^2) per shifted element access (Coq lists), i.e. O(len^3) for a
+        drain; histories whose list can exceed BIG elements are therefore replayed on the extracted
+        ABSTRACT SEQUENCE only, which theorem new_list_refines_seq proves equal to the model's output
+        for every history and every oracle."""
         text = "\n".join(hist_line(h) for h in hs) + "\n"
         rc, impl_lines, err = self.c.run_impl(self.binary, ["c04"], text)
         res = []
         for i, h in enumerate(hs):
             ent, caps, fresh = split_impl(impl_lines[i] if i < len(impl_lines) else "<missing>")
-            res.append({"impl": ent, "caps": caps, "fresh": fresh})
-        mtext = "\n".join(hist_line(h, res[i]["caps"]) for i, h in enumerate(hs)) + "\n"
-        mlines = self.c.run_model("list", mtext)
-        slines = self.c.run_model("list-spec", mtext) if want_spec else None
+            res.append({"impl": ent, "caps": caps, "fresh": fresh, "spec_only": max_len_bound(h) > BIG})
+        lines = [hist_line(h, res[i]["caps"]) for i, h in enumerate(hs)]
+        small = [i for i in range(len(hs)) if not res[i]["spec_only"]]
+        mlines = self.c.run_model("list", "\n".join(lines[i] for i in small) + "\n") if small else []
+        need_spec = list(range(len(hs))) if want_spec else [i for i in range(len(hs)) if res[i]["spec_only"]]
+        slines = self.c.run_model("list-spec", "\n".join(lines[i] for i in need_spec) + "\n") if need_spec else []
+        spec = {i: split_model(slines[j] if j < len(slines) else "<missing>")[0] for j, i in enumerate(need_spec)}
+        mod = {i: split_model(mlines[j] if j < len(mlines) else "<missing>") for j, i in enumerate(small)}
         for i in range(len(hs)):
-            res[i]["model"], res[i]["mcaps"] = split_model(mlines[i] if i < len(mlines) else "<missing>")
-            if slines is not None:
-                res[i]["spec"], _ = split_model(slines[i] if i < len(slines) else "<missing>")
+            if i in spec:
+                res[i]["spec"] = spec[i]
+            if res[i]["spec_only"]:
+                res[i]["model"], res[i]["mcaps"] = spec[i], []
+            else:
+                res[i]["model"], res[i]["mcaps"] = mod[i]
         return res
+
+
+BIG = 700
+
+
+def max_len_bound(h):
+    """upper bound of the length the list can reach in this history"""
+    n = 0
+    for o in h[2]:
+        if o[0] == "a":
+            n += o.count(",") + 1 if len(o) > 2 else 0
+        elif o[0] == "i":
+            n += 1
+    return n
 
 
 def first_diff(h, a, b, fresh=None):
@@ -446,7 +471,7 @@ Definition cases : list (impl * Z * list (op * Z) * list (xres * xres * xres)) :
 
 def crosscheck(c, hs, results):
     r = random.Random(c.seed + 17)
-    small = [i for i, h in enumerate(hs) if len(h[2]) <= 40 and results[i]["model"]
+    small = [i for i, h in enumerate(hs) if len(h[2]) <= 40 and results[i]["model"] and not results[i]["spec_only"]
              and not any("#" in e or e == "panic" or "panic" in e for e in results[i]["model"])
              and all(len(o) < 200 for o in h[2])]
     idx = sorted(r.sample(small, min(200, len(small))))
@@ -495,12 +520,13 @@ def main(tier):
     for s in range(0, len(hs), B):
         results += runner.run(hs[s:s + B])
     st = c.cov["distribution"]
-    n_ops = n_agree_hist = grow = shrinks = cap_eq = cap_ne = maxlen = 0
+    n_ops = n_agree_hist = grow = shrinks = cap_eq = cap_ne = maxlen = n_spec_only = 0
     per_impl = {}
     failing = []
     for h, r in zip(hs, results):
         per_impl["%s/cap%d" % (h[0], h[1])] = per_impl.get("%s/cap%d" % (h[0], h[1]), 0) + 1
         n_ops += len(h[2])
+        n_spec_only += bool(r["spec_only"])
         c.note_case(hist_line(h), nontrivial(h, r["impl"]))
         k = first_diff(h, r["impl"], r["model"], r["fresh"])
         if k is None:
@@ -527,6 +553,7 @@ def main(tier):
                 maxlen = max(maxlen, int(p[1]))
     c.cov["evaluations"] = n_ops          # one evaluation = one operation compared (result, Len, AsSlice)
     c.cov["histories"] = len(hs)
+    c.cov["histories_replayed_on_abstract_sequence_only"] = n_spec_only   # longer than BIG elements, see Runner.run
     c.cov["traces_validated_against_impl"] = n_agree_hist
     c.cov["impl_x_cap"] = per_impl
     st["arraylist_growth_events"] = grow
